@@ -799,4 +799,185 @@ class GenC15(Gen):
         return op
 
 
-SCENARIOS = {"C16": GenC16, "C14": GenC14, "C12": GenC12, "C08": GenC08, "C13": GenC13, "C15": GenC15}
+# ---------------------------------------------------------------- file scenarios (C01-C07, C09)
+
+class FileGen(Gen):
+    """Sessions around the stream seams: generated files are installed and read, charts
+    built through histories are written, read back and written again (generation chains),
+    with per-op I/O plans (buffer size, short counts, error faults) drawn from the "io" stream."""
+
+    game = "osu"
+    max_handles = 8
+    write_games = ("osu",)
+    read_games = ("osu",)
+
+    def setup(self):
+        self.io_r = self.s.streams["io"]
+        self.n_paths = 0
+        self.paths: dict[str, str] = {}  # path -> game
+        self.s.last_io = None
+        self._retried = set()
+
+    # -- helpers
+    def new_path(self, game):
+        from .ops.files import IO
+
+        self.n_paths += 1
+        p = f"/simfs/f{self.n_paths}{IO[game].ext}"
+        self.paths[p] = game
+        return p
+
+    def plan(self, direction):
+        from .simfs import draw_io_plan
+
+        return draw_io_plan(self.io_r, self.s.knobs, direction)
+
+    def layout_for(self, game, h=None):
+        return None
+
+    def io_read_op(self, game, path, out=None, faults=True):
+        op = self.mk("io.read", game=game, path=path, out=out or self.new_h(), path_type=self.s.knobs.get("path_type", "str"),
+                     io=self.plan("r"))
+        lay = self.layout_for(game)
+        if lay is not None:
+            op["layout"] = lay
+        if not faults:
+            op["io"]["fault"] = None
+        return op
+
+    def io_write_op(self, game, h, path, first=False, faults=True):
+        op = self.mk("io.write", game=game, h=h, path=path, path_type=self.s.knobs.get("path_type", "str"), io=self.plan("w"))
+        if first:
+            op["dest"] = self.s.knobs.get("dest_state", "absent")
+        if not faults:
+            op["io"]["fault"] = None
+        return op
+
+    def next_op(self):
+        # H-recover: after a file op that failed because of an injected error, retry the same call with faults off
+        li = self.s.last_io
+        if li is not None and not self.queue and li["failed_by_fault"] and li["id"] not in self._retried:
+            self._retried.add(li["id"])
+            if self.r.random() < 0.7:
+                import copy
+
+                op = copy.deepcopy(li["op"])
+                op["id"] = self.s.fresh_op_id()
+                op["io"] = dict(op.get("io") or {}, fault=None)
+                op["retry_of"] = li["id"]
+                if "out" in op and op["out"] is not None:
+                    op["out"] = self.new_h()
+                op.pop("dest", None)
+                return op
+        return super().next_op()
+
+    # -- producers
+    def gen_doc(self, game):
+        raise NotImplementedError
+
+    def p_install_read(self, game=None):
+        game = game or self.r.choice(self.read_games)
+        path = self.new_path(game)
+        doc, fmt = self.gen_doc(game)
+        return [self.mk("fs.install", game=game, path=path, doc=doc, fmt=fmt), self.io_read_op(game, path)]
+
+    def _written_paths(self, game=None):
+        fs = self.w.fs
+        if fs is None:
+            return []
+        return [p for p, g in self.paths.items() if p in fs.files and p not in fs.tainted and (game is None or g == game)]
+
+    def p_reread(self):
+        ps = self._written_paths()
+        ps = [p for p in ps if self.paths[p] in self.read_games]
+        if not ps:
+            return None
+        p = self.r.choice(ps)
+        return self.io_read_op(self.paths[p], p)
+
+    def _writable_handles(self):
+        from .ops.files import IO
+
+        out = []
+        for h in self.w.h.values():
+            if h.game in self.write_games and h.kind == IO[h.game].kind:
+                out.append(h)
+        return out
+
+    def p_write(self):
+        hs = self._writable_handles()
+        if not hs:
+            return None
+        h = self.r.choice(hs)
+        ps = [p for p, g in self.paths.items() if g == h.game]
+        if ps and self.r.random() < 0.4:
+            return self.io_write_op(h.game, h.name, self.r.choice(ps))
+        return self.io_write_op(h.game, h.name, self.new_path(h.game), first=True)
+
+    def p_chain(self):
+        """chart -> write -> read -> write -> ... on one path (H-gen)"""
+        hs = [h for h in self._writable_handles() if h.game in self.read_games]
+        if not hs:
+            return None
+        h = self.r.choice(hs)
+        path = self.new_path(h.game)
+        n = self.r.choice([2, 2, 3, 4])
+        ops = [self.io_write_op(h.game, h.name, path, first=True)]
+        cur = None
+        for _ in range(n - 1):
+            cur = self.new_h()
+            ops.append(self.io_read_op(h.game, path, out=cur))
+            ops.append(self.io_write_op(h.game, cur, path))
+        return ops
+
+    FLOAT_TIME_COLS = ("offset", "length", "bpm")
+
+    def p_time_arith(self):
+        """in-place arithmetic on time columns of a chart's list (keeps integral fields integral)"""
+        h = self.pick("map")
+        if not h:
+            return None
+        keys = [k for k, v in h.obj.objs.items() if len(v.df) > 0 and not v.df.isna().any().any()]
+        if not keys:
+            return None
+        key = self.r.choice(keys)
+        tl = h.obj.objs[key]
+        cols = [c for c in tl.df.columns if c in ("offset", "length")]
+        if not cols:
+            return None
+        col = self.r.choice(cols)
+        opr, v = self.r.choice([("+", 0.5), ("+", 100.0), ("-", 250.25), ("*", 1.5), ("/", 3), ("+", 1000)])
+        if col == "length" and opr == "-":
+            opr = "+"
+        a = self.new_h()
+        return [self.mk("map.get_list", h=h.name, key=key, out=a), self.mk("list.col_arith", h=a, col=col, opr=opr, v=v)]
+
+    def p_stack_time(self):
+        ss = self._fresh_stackers("map")
+        if not ss:
+            return None
+        h = self.r.choice(ss)
+        cols = [c for c in self._stack_cols(h) if c in ("offset", "length")]
+        if not cols:
+            return None
+        col = self.r.choice(cols)
+        opr, v = self.r.choice([("+", 0.5), ("+", 100.0), ("*", 1.5), ("/", 3), ("+", 1000), ("*", 2)])
+        return self.mk("stack.assign", h=h.name, cols=[col], opr=opr, v=v, form=self.r.choice(["aug", "pure"]))
+
+
+class GenC01(FileGen):
+    game = "osu"
+    table = dict(install_read=10, map_new=7, write=10, reread=6, chain=6, rate=2, stack=2, stack_time=2, time_arith=2,
+                 map_edit_list=2, map_deepcopy=1)
+    games = ["osu"]
+
+    def gen_doc(self, game):
+        from .gen_files import gen_osu_doc, gen_osu_fmt
+
+        return gen_osu_doc(self.d, self.hi + 2), gen_osu_fmt(self.d, self.s.knobs)
+
+    def p_map_new(self, game=None, **kw):
+        return super().p_map_new("osu", **kw)
+
+
+SCENARIOS = {"C01": GenC01, "C16": GenC16, "C14": GenC14, "C12": GenC12, "C08": GenC08, "C13": GenC13, "C15": GenC15}
